@@ -87,3 +87,14 @@ def nd_mse(self: Obj('sempler.normal_distribution.NormalDistribution', p=Int, me
     ensures(result == self.covariance[y, y]
             + matmul(matmul(ls_coefs(self.covariance, y, Xs), self.covariance), ls_coefs(self.covariance, y, Xs))
             - matmul(2 * row(self.covariance, y), ls_coefs(self.covariance, y, Xs)))
+
+
+@contract("sempler.normal_distribution.NormalDistribution.sample", cases={'random_state': ['none', 'int']})
+def nd_sample(self: Obj('sempler.normal_distribution.NormalDistribution', p=Int, mean=Arr1, covariance=Arr2), n: Int) -> Arr2:
+    requires(nd_ok(self), n >= 0)
+    # exactly numpy's multivariate normal with the stored parameters, drawn from the global generator (reseeded when a seed is given)
+    ensures(defines(result, g_mvn(global_state() if random_state is None else global_seeded(random_state), self.mean, self.covariance, n)[0]))
+    reproducible()
+    ensures(result.shape[0] == n and result.shape[1] == self.p)
+    modifies(np.random)
+    fresh(result)
